@@ -26,6 +26,8 @@ type Job struct {
 	WantLog bool           `json:"want_log,omitempty"`
 	Tier    string         `json:"tier,omitempty"`
 	Knobs   map[string]int `json:"knobs,omitempty"`
+	// RaceFiles (race pass only): a data race counts when both accesses lie in one of these files
+	RaceFiles []string `json:"race_files,omitempty"`
 }
 
 type Violation struct {
@@ -130,7 +132,9 @@ func (p *Pool) spawnWith(extra []string) (*worker, error) {
 func scrubbedEnv(gomax string) []string {
 	env := []string{"VERIF_WORKER=1", "GOMAXPROCS=" + gomax, "PATH=/usr/bin:/bin", "HOME=/nonexistent", "GOTRACEBACK=all", "TMPDIR=" + os.TempDir()}
 	if os.Getenv("VERIF_RACE") != "" {
-		env = append(env, "GORACE=halt_on_error=1 exitcode=66 history_size=3")
+		dir := filepath.Join(os.TempDir(), fmt.Sprintf("verif-race-%d", os.Getpid()))
+		os.MkdirAll(dir, 0o755)
+		env = append(env, "GORACE=log_path="+filepath.Join(dir, "r")+" halt_on_error=0 history_size=3", "VERIF_RACE_LOG="+filepath.Join(dir, "r"))
 	}
 	for _, k := range []string{"VERIF_SCHED_TRACE", "VERIF_DEBUG"} {
 		if v := os.Getenv(k); v != "" {
